@@ -13,7 +13,7 @@ func init() {
 	register(&Def{
 		ID:    "C03",
 		Level: "exploration",
-		Rule: "every element type x channel counts {1,2,3,5,6,7,8} x destination (length,capacity) x source length classes {0, 1 frame, one frame short of the spare capacity, exact fit, one frame too many, far too many} x destination kind {standalone, window with spare capacity inside a larger stamped buffer watched by sibling views} x source kind {separate buffer, prefix slice of the destination, an earlier window of the same storage, the destination itself}, plus seeded chains of 1..20 appends; " +
+		Rule: "every element type x channel counts 1..8 x destination (length,capacity) x source length classes {0, 1 frame, one frame short of the spare capacity, exact fit, one frame too many, far too many} x destination kind {standalone, window with spare capacity inside a larger stamped buffer watched by sibling views} x source kind {separate buffer, prefix slice of the destination, an earlier window of the same storage, the destination itself}, plus seeded chains of 1..20 appends; " +
 			"after every Append the reference model (old ++ source, length, capacity multiple of C and >= length, in place iff capacity sufficed, base address, fresh disjoint storage on growth, source unchanged) is compared over every live view and every storage through the hook; " +
 			"distinct = distinct (type, C, destination shape, source kind, source length, step) tuples; non-trivial = source length > 0",
 		Assume: []string{"domain as stated by the property: equal channel counts, frame-aligned operands, sources not overlapping the destination's spare capacity unless the source is the destination",
@@ -92,7 +92,7 @@ func (e *c03env) doAppend(dst, src *mon.View, caseID string, d map[string]any, s
 }
 
 func runC03(c *core.Ctx) {
-	chans := []int{1, 2, 3, 5, 6, 7, 8}
+	chans := []int{1, 2, 3, 4, 5, 6, 7, 8}
 	maxL := c.Pick(3, 5)
 	maxK := c.Pick(5, 8)
 	n := 0
@@ -162,7 +162,12 @@ func runC03(c *core.Ctx) {
 				}
 			}
 			if src == nil {
-				sb := t.Alloc(signal.Allocator{Channels: ch, Length: rnd.Range(0, 9), Capacity: 12})
+				n := rnd.Range(0, 9)
+				if rnd.Chance(1, 12) {
+					n = rnd.Range(200, 1500) // long sources: paths that depend on the amount copied
+					c.Obs("long_sources", 1)
+				}
+				sb := t.Alloc(signal.Allocator{Channels: ch, Length: n, Capacity: n + 3})
 				stampAll(w, sb)
 				src = w.Adopt(sb, "src")
 			}
